@@ -1,10 +1,18 @@
 (* C04 - a mixture's descriptors are the sum of its components'.
-   Statements only.  PARTIAL: the additivity is decided on the implementation
-   by the mixture oracle of this check; the theorem side gives the finite
-   fact that makes matching component-local for the shipped schemes, and
-   soundness facts of the matcher it rests on. *)
+   Statements only (lemmas in Graph/Embed.v, Graph/Embed_inst.v,
+   Ring/Reader_proofs.v).  The matcher-level core is proved for every fragment
+   the reader accepts that carries no molecule-level prefix (none of the
+   shipped ones does: C04_no_mol_prefix, finite, regenerated) and all
+   well-formed component graphs: the matches of a pattern in the mixture are
+   exactly the matches in the first component together with the shifted
+   matches in the second, each once (a match never straddles components and
+   is not influenced by the other component - ring membership, ring counts,
+   neighbour counts and stereo are local).  PARTIAL: the lift from matches to
+   the descriptor dictionary (centre assignment, naming, remaps) is decided
+   on the implementation by the mixture oracle of this check. *)
 From Coq Require Import List NArith ZArith QArith Arith Bool.
-From PG Require Import Common.Strs Graph.Mol Graph.Match Graph.Match_proofs Graph.Scheme Graph.SchemeLoad Graph.Scheme_proofs Gen.Schemes.
+From Coq Require Import Permutation.
+From PG Require Import Common.Strs Ring.Peg Ring.Reader Ring.Reader_proofs Graph.Mol Graph.Match Graph.Match_proofs Graph.Embed Graph.Embed_inst Graph.Scheme Graph.SchemeLoad Graph.Scheme_proofs Gen.Schemes.
 Import ListNotations.
 
 (* no shipped pattern or descriptor has a molecule-level prefix (part of scheme_ok) *)
@@ -25,6 +33,42 @@ Theorem C04_declared_bonds_exist : forall f m qall img, placed f m qall img ->
   forall j t, In (j, t) (bonds_into f k) ->
     exists cj b, nth_error img j = Some cj /\ bond_between m c cj = Some b /\ qbond_ok t b = true.
 Proof. exact placed_bonds_ok. Qed.
+
+(* ---------- matching in a mixture ---------- *)
+(* the components embed into the mixture: atoms, bonds, neighbourhoods, rings preserved, no bond leaves a component *)
+Theorem C04_components_embed : forall m1 m2, wf_mol m1 -> wf_mol m2 -> wf_rings m1 -> wf_rings m2 ->
+  embeds (fun i => i) m1 (union m1 m2) /\ embeds (shift (natom m1)) m2 (union m1 m2).
+Proof. intros m1 m2 W1 W2 R1 R2. split; [apply embeds_left|apply embeds_right]; assumption. Qed.
+Print Assumptions C04_components_embed.
+
+Theorem C04_matches_of_mixture : forall elements xlower t f m1 m2,
+  read_fragment elements xlower t = ROk' f -> f_mol f = [] ->
+  wf_mol m1 -> wf_mol m2 -> wf_rings m1 -> wf_rings m2 ->
+  Permutation (matches f (union m1 m2))
+              (matches f m1 ++ map (map (shift (natom m1))) (matches f m2)).
+Proof.
+  intros elements xlower t f m1 m2 H Hm W1 W2 R1 R2.
+  destruct (read_fragment_connected elements xlower t f H) as [C N].
+  apply matches_union_perm; auto. eapply read_fragment_wf; eauto.
+Qed.
+Print Assumptions C04_matches_of_mixture.
+
+Theorem C04_match_count_additive : forall elements xlower t f m1 m2,
+  read_fragment elements xlower t = ROk' f -> f_mol f = [] ->
+  wf_mol m1 -> wf_mol m2 -> wf_rings m1 -> wf_rings m2 ->
+  (length (matches f (union m1 m2)) = length (matches f m1) + length (matches f m2))%nat.
+Proof.
+  intros elements xlower t f m1 m2 H Hm W1 W2 R1 R2.
+  destruct (read_fragment_connected elements xlower t f H) as [C N].
+  apply matches_union_count; auto. eapply read_fragment_wf; eauto.
+Qed.
+
+(* non-vacuity: two one-atom "molecules", the pattern C matches once in each *)
+Example C04_union_example :
+  let a := {| atoms := [{| a_z := 6; a_chg := 0; a_rad := 4; a_arom := false |}]; bonds := []; rings := [] |} in
+  let f := {| f_atoms := [{| qa_sym := SElem 6; qa_chg := None |}]; f_bonds := []; f_bcons := []; f_acons := []; f_stereo := []; f_mol := [] |} in
+  matches f (union a a) = [[0]; [1]]%nat /\ matches f a = [[0]]%nat.
+Proof. vm_compute. split; reflexivity. Qed.
 
 (* descriptor totals add entry-wise *)
 Theorem C04_dict_add_get : forall d k v k',
